@@ -8,7 +8,7 @@ PROP = 'C03'
 RULE = ("record lists written with VbsWriter (class API, write_many, context manager) or vbs_list_to_bytes and read back "
         "with VbsReader / vbs_bytes_to_list, blocked and unblocked: every single-record length 1..6000 in both formats "
         "(exhaustive), multi-record files whose prefixes and record ends fall on payload offsets 1008..1016 mod 1012, "
-        "contents with 0x00 / 0x40 runs and embedded zero lengths, the convenience functions with their default arguments on 0x40-filled data, random lists. Non-trivial = more than one record, or a "
+        "contents with 0x00 / 0x40 runs and embedded zero lengths, the convenience functions with their default arguments on 0x40-filled data, the configured maximum changed at run time, random lists. Non-trivial = more than one record, or a "
         "record/prefix touching a block boundary, or special content; distinct = distinct (format, api, record list)")
 TRUSTED = ["Model/Vbs.lean models VbsWriter.write/close, VbsReader.__next__, Block1014, Unblock1014 and the BytesIO file "
            "position semantics (hand-written; tied by this correspondence)",
@@ -48,6 +48,22 @@ def write_file(case, recs):
 
 
 def impl_eval(case):
+    if 'maxlen' in case:
+        # the application changes the configured maximum at run time (config is a plain module-level dict)
+        from cardutil import config
+        old = config.config.get('MAX_VBS_RECORD_LENGTH')
+        config.config['MAX_VBS_RECORD_LENGTH'] = case['maxlen']
+        try:
+            return impl_eval_inner(case)
+        finally:
+            if old is None:
+                config.config.pop('MAX_VBS_RECORD_LENGTH', None)
+            else:
+                config.config['MAX_VBS_RECORD_LENGTH'] = old
+    return impl_eval_inner(case)
+
+
+def impl_eval_inner(case):
     from cardutil import mciipm
     recs = records_of(case)
     blocked = bool(case['b'])
@@ -93,9 +109,10 @@ def _offsets(recs):
 
 def model_line(case):
     b = '1' if case['b'] else '0'
+    ml = case.get('maxlen', max_len())
     if 'lens' in case:
-        return f"vbs.roundtrip\t{b}\t{max_len()}\t" + ','.join(map(str, case['lens']))
-    return f"vbs.roundtriphex\t{b}\t{max_len()}\t" + ','.join(case['hex'])
+        return f"vbs.roundtrip\t{b}\t{ml}\t" + ','.join(map(str, case['lens']))
+    return f"vbs.roundtriphex\t{b}\t{ml}\t" + ','.join(case['hex'])
 
 
 def model_obs(case, resp):
@@ -132,6 +149,13 @@ def explore(run, tier):
         cases.append({'b': 0, 'hex': ['40' * n], 'api': 'funcdef'})
         cases.append({'b': 0, 'hex': ['40' * 800, '40' * n, '40' * 800], 'api': 'funcdef'})
         cases.append({'b': 0, 'lens': [n, 800, n], 'api': 'funcdef'})
+    # the configured maximum changed at run time: records up to the NEW maximum must survive
+    for newmax in (ml + 2000, 2 * ml, 100, 1):
+        for b in (0, 1):
+            for n in sorted({1, newmax - 1, newmax, min(newmax, ml + 1)}):
+                if n >= 1:
+                    cases.append({'b': b, 'lens': [n], 'api': apis[(n + b) % 3], 'maxlen': newmax})
+            cases.append({'b': b, 'lens': [newmax, min(3, newmax), newmax], 'api': 'class', 'maxlen': newmax})
     for b in (0, 1):
         cases.append({'b': b, 'lens': [], 'api': 'class'})
         cases.append({'b': b, 'lens': [ml, ml, ml], 'api': 'func'})
